@@ -182,7 +182,6 @@ func specSubset(n int) xstate.Spec {
 	}
 }
 
-
 // specResync: the strict case with UpstreamCluster events that touch neither the policy's endpoints nor their
 // readiness delivered between picks - the same object again (informer resync), a logging switch, a flow-control
 // edit - on a cluster that also has a disabled server outside the subset. The policy's ready set is stable across
@@ -299,6 +298,82 @@ func specResync() xstate.Spec {
 			return fmt.Sprint(s.ready, cur, w, s.tick)
 		},
 		Close: func(si interface{}) { si.(*sysR).ci.Stop() },
+	}
+}
+
+// manyPolicies: scale is an input too. One strict policy (subset {e0,e1}) is observed while the same cluster serves
+// many other policies with other subsets (each keeps a cursor of its own): whatever the number of the others and
+// however their picks fall between the observed ones, the observed policy's consecutive picks stay strictly balanced.
+func manyPolicies(c *ev.Check) {
+	const nEP = 8
+	for _, others := range []int{1, 20, 70, 150} {
+		var servers []proxyv1alpha1.UpstreamClusterServer
+		for i := 0; i < nEP; i++ {
+			servers = append(servers, proxyv1alpha1.UpstreamClusterServer{Endpoint: epName(i)})
+		}
+		rule := func(res string) []proxyv1alpha1.DispatchPolicyRule {
+			return []proxyv1alpha1.DispatchPolicyRule{{Verbs: []string{"*"}, APIGroups: []string{"*"}, Resources: []string{res}}}
+		}
+		pols := []proxyv1alpha1.DispatchPolicy{{UpstreamSubset: []string{epName(0), epName(1)}, Rules: rule("observed")}}
+		// distinct subsets of size >= 2 over e2..e7 and mixed ones, in a fixed order
+		var subsets [][]string
+		for mask := 3; mask < 1<<nEP && len(subsets) < others; mask++ {
+			var sub []string
+			for i := 0; i < nEP; i++ {
+				if mask&(1<<uint(i)) != 0 {
+					sub = append(sub, epName(i))
+				}
+			}
+			if len(sub) >= 2 && !(len(sub) == 2 && sub[0] == epName(0) && sub[1] == epName(1)) {
+				subsets = append(subsets, sub)
+			}
+		}
+		for i, sub := range subsets {
+			pols = append(pols, proxyv1alpha1.DispatchPolicy{UpstreamSubset: sub, Rules: rule(fmt.Sprintf("r%d", i))})
+		}
+		ci := kit.NewClusterInfo("c14", servers, pols)
+		for i := 0; i < nEP; i++ {
+			e, _ := ci.Endpoints.Load(epName(i))
+			e.UpdateStatus(true, "", "")
+		}
+		pickFor := func(res string) (int, error) {
+			p, err := ci.MatchAttributes(authorizer.AttributesRecord{User: &user.DefaultInfo{Name: "alice"}, Verb: "get", Resource: res, ResourceRequest: true})
+			if err != nil {
+				return -1, err
+			}
+			e, err := p.Pop()
+			if err != nil {
+				return -1, err
+			}
+			var i int
+			fmt.Sscanf(e.Endpoint, "http://127.0.0.1:%d", &i)
+			return i - 1001, nil
+		}
+		var window []int
+		bad := false
+		for round := 0; round < 6 && !bad; round++ {
+			// between two observed picks: all the others once (rounds 0-2), a growing prefix of them (rounds 3-5)
+			got, err := pickFor("observed")
+			if err != nil {
+				c.EngineError("many-policies: " + err.Error())
+				break
+			}
+			window = append(window, got)
+			n := len(subsets)
+			if round >= 3 {
+				n = n * (round - 2) / 4
+			}
+			for i := 0; i < n; i++ {
+				_, _ = pickFor(fmt.Sprintf("r%d", i))
+			}
+			if err := balanced(window, []bool{true, true}); err != nil {
+				c.Violation("many-policies/uneven-strict", fmt.Sprintf("a strict policy over {e0,e1} on a cluster that serves %d other policies with other subsets: its consecutive picks %v are not balanced (%v)", others, window, err), map[string]interface{}{"other_policies": others})
+				bad = true
+			}
+		}
+		c.Add("many_policy_runs", 1)
+		c.Outcome("many_policies", fmt.Sprintf("%d/%v", others, window))
+		ci.Stop()
 	}
 }
 
@@ -508,6 +583,7 @@ func main() {
 	tasks = append(tasks, xstate.Tasks(c, specSubset(3), c.Pick(9, 12), 4)...)
 	tasks = append(tasks, xstate.Tasks(c, specSubset(4), c.Pick(8, 11), 5)...)
 	tasks = append(tasks, xstate.Tasks(c, specResync(), c.Pick(8, 11), 6)...)
+	tasks = append(tasks, ev.Task{Name: "many-policies", Run: func() { manyPolicies(c) }})
 	tasks = append(tasks, xstate.Tasks(c, specAll(2), c.Pick(40, 60), 1)...)
 	tasks = append(tasks, xstate.Tasks(c, specAll(3), c.Pick(14, 20), 6)...)
 	bounds := []int{0, 1, 2}
